@@ -24,6 +24,17 @@ theorem update_shape : C15Facts.updateSteps = expectedUpdateSteps C15Facts.binds
 /-- `round2.checkSignature` verifies `bh.Signature` over `bh.Hash` and `bh.Random` over `preBH.Random` under the group key. -/
 theorem checkSignature_shape : C15Facts.checkSignatureSteps = expectedCheckSignatureSteps := by decide
 
+/-- `round2.Start` runs `checkBlockExisted` and `checkSignature` before `GenerateBlock`, and only then
+adds the block and signals completion. -/
+theorem start2_shape : C15Facts.start2Steps = expectedStart2Steps := by decide
+
+/-- `groupSignGenerator`: ignore when already recovered; dedup by sender id; recover when the map size
+reaches the threshold (`>=`); `genGroupSign` keeps a valid group signature and reports success. -/
+theorem generator_shape :
+    C15Facts.addWitnessSignSteps = expectedAddWitnessSignSteps ∧
+    C15Facts.addWitnessForceSteps = expectedAddWitnessForceSteps ∧
+    C15Facts.genGroupSignSteps = expectedGenGroupSignSteps := by decide
+
 /-- `SignInfo.VerifySign` = signer id non-zero ∧ `VerifySig(pk, dataHash, signature)`. -/
 theorem verifySign_shape : C15Facts.verifySignSteps = expectedVerifySignSteps := by decide
 
